@@ -246,13 +246,19 @@ func BuildRust(p *dsl.Program, files map[string][]byte, dir string, withTests bo
 	lib := filepath.Join(dir, "libgen.rlib")
 	args := append([]string{"--crate-type", "rlib", "--crate-name", "gen", "-o", lib, filepath.Join(src, "lib.rs")}, ext...)
 	r := cli.Run(dir, buildTimeout, nil, nil, "rustc", args...)
+	if r.TimedOut {
+		panic("harness: toolchain timed out (machine overloaded?)")
+	}
 	if r.Exit != 0 {
 		return nil, &BuildError{"rust", "emitted", string(r.Stderr)}
 	}
 	if withTests {
 		args := append([]string{"--test", "--crate-name", "gen", "-o", filepath.Join(dir, "emitted_tests"), filepath.Join(src, "lib.rs")}, ext...)
 		r := cli.Run(dir, buildTimeout, nil, nil, "rustc", args...)
-		if r.Exit != 0 {
+		if r.TimedOut {
+		panic("harness: toolchain timed out (machine overloaded?)")
+	}
+	if r.Exit != 0 {
 			return nil, &BuildError{"rust", "emitted-tests", string(r.Stderr)}
 		}
 	}
@@ -261,6 +267,9 @@ func BuildRust(p *dsl.Program, files map[string][]byte, dir string, withTests bo
 	bin := filepath.Join(dir, "drvbin")
 	args = append([]string{"--crate-name", "drv", "-o", bin, drv, "--extern", "gen=" + lib}, ext...)
 	r = cli.Run(dir, buildTimeout, nil, nil, "rustc", args...)
+	if r.TimedOut {
+		panic("harness: toolchain timed out (machine overloaded?)")
+	}
 	if r.Exit != 0 {
 		return nil, &BuildError{"rust", "driver", string(r.Stderr)}
 	}
